@@ -30,7 +30,7 @@ CONSTANTS ISz,       \* item size of the root's element type (bytes)
           Prune,     \* TRUE: states reached by an operation that changed nothing are not expanded
                      \*       (graph dumps for replay; exhaustive configurations use VIEW instead)
           Variant    \* "faithful" | "idx_le" | "slice_no_neg" | "own_any" | "ass_extra" |
-                     \* "add_bytes" | "memcpy_fwd"
+                     \* "add_bytes" | "memcpy_fwd" | "mask"
 
 VARIABLES mem, views, res, steps
 vars == <<mem, views, res, steps>>
@@ -73,7 +73,9 @@ IAssMem(m, v, s, vals) == Write(m, ItemOff(v, s.i), Flat(vals))
 ViewVals(m, w) == [k \in 1..w.len |-> Read(m, ItemOff(w, k - 1), w.sz)]
 (* (p+i)-p == i *)
 IDiff(v, w) == (v.off - w.off) \div v.sz
-DiffDefined(v, w) == v.k \in {"ptr", "own"} /\ v.sz = w.sz /\ (v.off - w.off) % v.sz = 0
+DiffTyped(v, w) == v.k \in {"ptr", "own"} /\ v.sz = w.sz            \* p - q between pointers to the same T
+(* the difference is defined iff the byte distance is a multiple of sizeof(T); its value is distance / size *)
+DiffDefined(v, w) == DiffTyped(v, w) /\ (v.off - w.off) % v.sz = 0
 (* ffi.offsetof('T[]', i) == i*sizeof(T) *)
 IOffsetOf(sz, i) == i * sz
 
@@ -149,10 +151,18 @@ MAdd(v, i, sign) == [k |-> "ptr", sz |-> v.sz, len |-> 0, safe |-> FALSE,
                      off |-> IF Variant = "add_bytes" THEN v.off + i * sign
                                                       ELSE v.off + (i * sign) * v.sz]
 (* cdata_sub with two cdata, :2809-2838 *)
+(* d & m on C integers, m >= 0 small: the low bits of the two's complement of d *)
+BitAnd(x, y) == LET F[k \in 0..16] == IF k = 16 THEN 0
+                                      ELSE (IF (x \div (2^k)) % 2 = 1 /\ (y \div (2^k)) % 2 = 1 THEN 2^k ELSE 0) + F[k + 1]
+                IN F[0]
+CMask(d, m) == BitAnd(d % 65536, m)
+CDiv(d, n) == IF d >= 0 THEN d \div n ELSE 0 - ((0 - d) \div n)            \* C division truncates
 MDiff(v, w) ==
+  LET d == v.off - w.off IN
   IF v.k = "arr" THEN [st |-> "TypeError", num |-> 0]            \* ct != cdv->c_type
-  ELSE IF v.sz > 1 /\ (v.off - w.off) % v.sz # 0 THEN [st |-> "ValueError", num |-> 0]
-  ELSE [st |-> "ok", num |-> (v.off - w.off) \div v.sz]
+  ELSE IF v.sz > 1 /\ (IF Variant = "mask" THEN CMask(d, v.sz - 1) # 0 ELSE d % v.sz # 0)
+         THEN [st |-> "ValueError", num |-> 0]                   \* "not a multiple of the item size"
+  ELSE [st |-> "ok", num |-> CDiv(d, v.sz)]
 (* direct_typeoffsetof with an integer, :6665-6687, then rawaddressof / ffi_addressof *)
 MOffsetOf(sz, i) == i * sz
 MAddressOf(v, i) == [k |-> "ptr", sz |-> v.sz, len |-> 0, safe |-> FALSE, off |-> v.off + MOffsetOf(v.sz, i)]
@@ -176,7 +186,7 @@ Env(v, off, n) == v.safe \/ InArena(mem, off, n)
 EnvSl(v, off, n) == (v.safe /\ v.k = "arr") \/ InArena(mem, off, n)   \* slices of pointers are unchecked
 
 Expandable == \/ res.op = "init"
-              \/ res.st = "ok" /\ res.op \in {"slice", "add", "sub", "addressof", "setitem", "assign", "assignview"}
+              \/ res.st = "ok" /\ res.op \in {"slice", "add", "sub", "addressof", "cast", "setitem", "assign", "assignview"}
               \/ res.op \in {"assign", "assignview"} /\ res.st = "ValueError"    \* partial stores
 
 Tick == steps < MaxSteps /\ (Prune => Expandable) /\ steps' = steps + 1
@@ -240,6 +250,14 @@ PtrSub(a, i) ==
   /\ views' = Append(views, MAdd(views[a], i, 0 - 1))
   /\ UNCHANGED mem
 
+(* ffi.cast("T *", ffi.cast("char *", x) + nbytes): a pointer at any byte offset (b_cast: the address as is) *)
+CastPtr(a, nb) ==
+  /\ Tick
+  /\ Len(views) < MaxViews
+  /\ res' = [NoRes EXCEPT !.op = "cast", !.a = a, !.s = Sl(nb, 0)]
+  /\ views' = Append(views, [k |-> "ptr", sz |-> views[a].sz, len |-> 0, safe |-> FALSE, off |-> views[a].off + nb])
+  /\ UNCHANGED mem
+
 PtrDiff(a, b) ==
   LET o == MDiff(views[a], views[b]) IN
   /\ Tick
@@ -259,6 +277,9 @@ OffsetOf(i) ==
   /\ UNCHANGED <<mem, views>>
 
 VIdx == 1..Len(views)
+(* byte offsets of casts: only item sizes that are not powers of two get them (elsewhere every view
+   stays a multiple of the item size apart, and the graphs stay small) *)
+CastOffs == IF ISz \in {1, 2, 4, 8} THEN {} ELSE {1, ISz - 1, ISz, ISz + 1, 2 * ISz}
 SliceReqs == {Sl(i, j) : i \in Idx, j \in Idx}
              \cup {[Sl(0, 1) EXCEPT !.mi = TRUE], [Sl(0, 1) EXCEPT !.mj = TRUE], [Sl(0, 1) EXCEPT !.stp = TRUE]}
 (* value lists for slice assignment: n-1, n and n+1 distinct values *)
@@ -274,6 +295,7 @@ NextOp ==
         \/ \E a \in VIdx, i \in Idx : PtrAdd(a, i)
         \/ \E a \in VIdx, i \in Idx : PtrSub(a, i)
         \/ \E a \in VIdx, b \in VIdx : PtrDiff(a, b)
+        \/ \E a \in VIdx, nb \in CastOffs : CastPtr(a, nb)
         \/ \E a \in VIdx, i \in Idx : AddressOf(a, i)
         \/ \E i \in Idx : OffsetOf(i)
 Next == NextOp
@@ -318,9 +340,11 @@ IdealStep ==
     [] o.op = "add" -> mem' = mem /\ views' = Append(views, PtrView(v, i))
     [] o.op = "sub" -> mem' = mem /\ views' = Append(views, PtrView(v, 0 - i))
     [] o.op = "addressof" -> mem' = mem /\ views' = Append(views, PtrView(v, i))     \* == x + i
+    [] o.op = "cast" -> mem' = mem /\ views' = Append(views, [PtrView(v, 0) EXCEPT !.off = v.off + i])
     [] o.op = "diff" ->
          /\ mem' = mem /\ views' = views
          /\ DiffDefined(v, views[o.b]) => o.st = "ok" /\ o.num = IDiff(v, views[o.b])
+         /\ (DiffTyped(v, views[o.b]) /\ ~DiffDefined(v, views[o.b])) => o.st # "ok"
     [] o.op = "offsetof" -> mem' = mem /\ views' = views /\ o.num = IOffsetOf(ISz, i)
     [] OTHER -> FALSE
 RefinesIdeal == [][IdealStep]_vars
